@@ -5,6 +5,7 @@ import (
 	"go/constant"
 	"go/token"
 	"go/types"
+	"sort"
 	"strings"
 
 	"golang.org/x/tools/go/ssa"
@@ -122,6 +123,11 @@ func (w *World) render(v ssa.Value, depth int, seen map[ssa.Value]bool) string {
 		}
 		return x.Value.String()
 	case *ssa.Parameter:
+		for i := len(w.subst) - 1; i >= 0; i-- {
+			if r, ok := w.subst[i][x]; ok {
+				return r
+			}
+		}
 		return fmt.Sprintf("$%d", paramIndex(x))
 	case *ssa.FreeVar:
 		if b := w.FreeVarBinding(x); b != nil && !seen[x] {
@@ -152,6 +158,11 @@ func (w *World) render(v ssa.Value, depth int, seen map[ssa.Value]bool) string {
 	case *ssa.Field:
 		return w.render(x.X, depth, seen) + "." + fieldNameOf(x.X.Type(), x.Field)
 	case *ssa.Extract:
+		if c, ok := x.Tuple.(*ssa.Call); ok {
+			if r, ok := w.inlinedResult(c.Common(), x.Index, depth, seen); ok {
+				return r
+			}
+		}
 		return w.render(x.Tuple, depth, seen) + "#" + fmt.Sprint(x.Index)
 	case *ssa.Call:
 		return w.renderCall(x.Common(), depth, seen)
@@ -171,7 +182,7 @@ func (w *World) render(v ssa.Value, depth int, seen map[ssa.Value]bool) string {
 			parts = append(parts, w.render(e, depth-2, seen))
 		}
 		delete(seen, x)
-		return "phi(" + strings.Join(parts, "|") + ")"
+		return "phi(" + strings.Join(canonPhi(parts), "|") + ")"
 	case *ssa.Alloc:
 		if seen[x] {
 			return "&local↺"
@@ -255,6 +266,9 @@ func CallArgs(c *ssa.CallCommon) []ssa.Value {
 }
 
 func (w *World) renderCall(c *ssa.CallCommon, depth int, seen map[ssa.Value]bool) string {
+	if r, ok := w.inlinedResult(c, -1, depth, seen); ok {
+		return r
+	}
 	name := w.CalleeName(c)
 	var as []string
 	if depth > 1 {
@@ -309,4 +323,104 @@ func (w *World) RenderInstr(in ssa.Instruction) string {
 		return x.Name() + " = " + w.render(x, 6, seen)
 	}
 	return fmt.Sprintf("%T", in)
+}
+
+// canonPhi puts the operands of a phi in an order that does not depend on the order of the predecessor blocks (so that
+// swapping the branches of an if/else, or adding a second `continue`, does not change the rendering): duplicates are
+// dropped; constants come first, then ordinary values, then the self reference, then updates of the self reference;
+// ties are broken by text.
+func canonPhi(parts []string) []string {
+	class := func(s string) int {
+		switch {
+		case s == "phi↺":
+			return 2
+		case strings.Contains(s, "phi↺"):
+			return 3
+		case s == "nil" || s == "true" || s == "false" || s == "zero" || s == `""` || (len(s) > 0 && (s[0] == '"' || s[0] == '-' || (s[0] >= '0' && s[0] <= '9'))):
+			return 0
+		}
+		return 1
+	}
+	seen := map[string]bool{}
+	var out []string
+	for _, p := range parts {
+		if !seen[p] {
+			seen[p] = true
+			out = append(out, p)
+		}
+	}
+	sort.SliceStable(out, func(i, j int) bool {
+		ci, cj := class(out[i]), class(out[j])
+		if ci != cj {
+			return ci < cj
+		}
+		return out[i] < out[j]
+	})
+	return out
+}
+
+// inlinedResult (second reading only, w.inlineTrivial): result idx (-1: the only one) of a call to a small unexported,
+// loop-free karpenter helper rendered as what the helper returns, in the caller's terms: the returned expression, or the
+// canonical phi of the returned expressions when the helper has several returns. This undoes an "extract function" on
+// value level: `created, err := l.cachedOrLaunch(...)` reads again as phi(cache hit | launch result).
+func (w *World) inlinedResult(c *ssa.CallCommon, idx int, depth int, seen map[ssa.Value]bool) (string, bool) {
+	if !w.inlineTrivial || w.inlineDepth >= 2 || c.IsInvoke() {
+		return "", false
+	}
+	f := c.StaticCallee()
+	if f == nil || len(f.Blocks) == 0 || len(f.Blocks) > 12 || f.Synthetic != "" || !IsKarpenterFn(f) || f.Object() == nil || f.Object().Exported() || len(c.Args) != len(f.Params) {
+		return "", false
+	}
+	var parts []string
+	m := map[*ssa.Parameter]string{}
+	for j, p := range f.Params {
+		m[p] = w.render(c.Args[j], depth-1, seen)
+	}
+	w.subst = append(w.subst, m)
+	w.inlineDepth++
+	defer func() {
+		w.inlineDepth--
+		w.subst = w.subst[:len(w.subst)-1]
+	}()
+	for _, b := range f.Blocks {
+		if len(b.Instrs) == 0 || (len(b.Preds) == 0 && b.Index != 0) {
+			continue
+		}
+		// loops make the returned expressions path-dependent in ways a phi of returns does not express
+		for _, su := range b.Succs {
+			if su.Index <= b.Index && su != b && len(su.Preds) > 1 && su.Comment != "" && strings.Contains(su.Comment, "loop") {
+				return "", false
+			}
+		}
+		ret, ok := b.Instrs[len(b.Instrs)-1].(*ssa.Return)
+		if !ok {
+			continue
+		}
+		k := idx
+		if k < 0 {
+			if len(ret.Results) != 1 {
+				return "", false
+			}
+			k = 0
+		}
+		if k >= len(ret.Results) {
+			return "", false
+		}
+		v := resolveSpilled(ret, ret.Results[k])
+		if p, ok := v.(*ssa.Phi); ok && p.Block() == b {
+			for _, e := range p.Edges {
+				parts = append(parts, w.render(e, depth-1, seen))
+			}
+			continue
+		}
+		parts = append(parts, w.render(v, depth-1, seen))
+	}
+	parts = canonPhi(parts)
+	switch len(parts) {
+	case 0:
+		return "", false
+	case 1:
+		return parts[0], true
+	}
+	return "phi(" + strings.Join(parts, "|") + ")", true
 }
